@@ -40,8 +40,15 @@ func (self *Compiler) popScope() {
 	self.currScope = &self.varScopes[len(self.varScopes)-1]
 }
 
+// Replaces the outermost scope: used to switch to the root scope of the module which is being compiled.
+func (self *Compiler) setRootScope(scope map[string]string) {
+	self.varScopes[0] = scope
+	self.currScope = &self.varScopes[len(self.varScopes)-1]
+}
+
+// NOTE: neither module names nor identifiers can contain a `.`: using it as the separator keeps mangled names unambiguous.
 func (self *Compiler) mangleFn(input string) string {
-	mangled := fmt.Sprintf("@%s_%s", self.currModule, input)
+	mangled := fmt.Sprintf("@%s.%s", self.currModule, input)
 	return mangled
 }
 
@@ -67,7 +74,7 @@ func (self *Compiler) mangleVar(input string) string {
 		self.varNameMangle[input]++
 	}
 
-	mangled := fmt.Sprintf("@%s_%s%d", self.currModule, input, cnt)
+	mangled := fmt.Sprintf("@%s.%s.%d", self.currModule, input, cnt)
 	(*self.currScope)[input] = mangled
 
 	return mangled
@@ -87,18 +94,14 @@ func (self *Compiler) mangleLabel(input string) string {
 }
 
 func (self Compiler) getMangledFn(input string) (string, bool) {
-	for key, fn := range self.modules[self.currModule] {
-		if key == input {
-			return fn.MangledName, true
-		}
+	if fn, found := self.modules[self.currModule][input]; found {
+		return fn.MangledName, true
 	}
 
-	// TODO: i don't think that this is really reliable
-	for _, module := range self.modules {
-		for key, fn := range module {
-			if key == input {
-				return fn.MangledName, true
-			}
+	// An imported function lives in the module it is imported from.
+	if from, imported := self.moduleImports[self.currModule][input]; imported {
+		if fn, found := self.modules[from][input]; found {
+			return fn.MangledName, true
 		}
 	}
 
